@@ -110,7 +110,7 @@ def r4(ctx):
         return
     def sw_on(site):
         out = []
-        for b, o, tg, other in switch_edges_on(fo, lambda o: o[0] == "disc" and site in call_root_bb(o[1]) and not (o[1][0] in ("branch",))):
+        for b, o, tg, other in switch_edges_on(fo, lambda o: o[0] == "disc" and term_has_call(o[1], VALIDATE_LEADER) == site and not (o[1][0] in ("branch",))):
             if 1 in tg:
                 out.append((b, tg[1], tg.get(0, other)))
         return out
@@ -134,8 +134,6 @@ def r4(ctx):
 
 
 RULES = [r1, r2, r3, r4]
-CLAIMED = False
-NA_REASON = "rules C07.R1-R4 are wired; R3 fires on the unchanged tree (checksum error propagated for header slots and entries) and is being triaged before the property is claimed"
 EXPLANATION = ("C07 (a torn final write is tolerated): decides that validate_leader reports a leader shorter than 8 bytes, a zero length and an incomplete payload as end-of-log before decoding or slicing "
                "(R1), that a frame is accepted only on the equal-checksum edge (R2), that a checksum failure of a header slot or of a log entry is not propagated as an error out of Oplog::open (R3, conditional "
                "on validate_leader having an error return), and that the four combinations of slot validity each lead to the intended header choice / fresh log / EmptyStorage (R4).")
